@@ -17,7 +17,7 @@ use tracing::{debug, error, info, warn};
 use crate::{
     ConvertFieldSnafu, CreateCommandSnafu, DicomFile, Error, MissingAttributeSnafu,
     ReadDatasetSnafu, ReadFilePathSnafu, ScuSnafu, UnsupportedFileTransferSyntaxSnafu,
-    WriteDatasetSnafu, check_presentation_contexts, into_ts, store_req_command,
+    WriteDatasetSnafu, WriteIOSnafu, check_presentation_contexts, into_ts, store_req_command,
 };
 
 pub async fn send_file<T>(
@@ -109,8 +109,10 @@ where
 
             {
                 let mut pdata = scu.send_pdata(pc_selected.id);
-                pdata.write_all(&object_data).await.unwrap();
-                //.whatever_context("Failed to send C-STORE-RQ P-Data")?;
+                pdata.write_all(&object_data).await.context(WriteIOSnafu)?;
+                // send the last fragment now, so that a failure is reported
+                // (dropping the writer would ignore it)
+                pdata.finish().await.context(WriteIOSnafu)?;
             }
         }
 
